@@ -62,7 +62,7 @@ REQUIRED_CLASSES = [
     'estimate_outside_data', 'window_with_fewer_points_than_parameters', 'input_window_empty', 'input_window_too_few_points',
     'input_window_enough_points',
 ]
-CHUNK = 6
+CHUNK = 8
 
 SITE_FIT = 'peaks.fit_peaks'
 SITE_REMOVE = 'peaks.remove_peaks'
@@ -184,7 +184,10 @@ def cases(tier):
     for g, shape, width, bg, nz in itertools.product(('u101', 'n200'), shapes, (0.5, 2.0, 6.0), ('linear', 'quadratic'), noises):
         spec = {'grid': g, 'bg': bg, 'noise': nz, 'peaks': [{'shape': shape, 'width': width, 'pos': 0.5}]}
         for shift, frac in itertools.product((0.0, 1.7), fracs):
-            out.append({'kind': 'single', 'spectrum': spec, 'shift': shift, 'frac': frac, 'background': bg, 'peak': shape})
+            # quick tier: the guess fraction decides something only while the window is narrow (tails of 0..2 points);
+            # for windows >= 40 steps it merely moves the starting point of the optimiser, so 0.1 is run up to 20 steps
+            widths = [w for w in WIDTHS_STEPS if th or frac == 0.5 or (not isinstance(w, str) and w <= 20.0)]
+            out.append({'kind': 'single', 'spectrum': spec, 'shift': shift, 'frac': frac, 'background': bg, 'peak': shape, 'widths': widths})
     # edges -----------------------------------------------------------------------------
     for g, shape, pos, frac in itertools.product(('u101', 'n200'), ('gaussian', 'lorentzian'), (0.0, 0.04, 0.96, 1.0), (0.1, 0.5)):
         if not th and ((g == 'n200' and frac == 0.1) or (shape == 'lorentzian' and pos in (0.0, 1.0))):
@@ -395,7 +398,7 @@ def run_single(case, rec):
     fr = FitRequirements()
     km = k_min(case['background'], case['peak'])
     judged = 0
-    for steps in WIDTHS_STEPS:
+    for steps in case.get('widths', WIDTHS_STEPS):
         wv = scalar_width(x, steps, t['step'])
         sub = {'width_steps': steps, 'width': wv}
         res = run_fit(rec, data, x, est, sc.scalar(wv, unit=XUNIT), case['background'], case['peak'], fp, fr, sub=sub)
